@@ -33,13 +33,18 @@ PROPS["C11"] = dict(
 
 def _doc_ntoks(e):
     try:
-        return len(e["out"].get("toks", []))
+        return len(e["out"].get("toks", e["out"].get("vtoks", [])))
     except Exception:
         return 0
 
 def _corrupt_decode(e):
     """binding self-test for decode events: change one token field / one source / the kind"""
     o = e["out"]
+    if e["op"] == "decode_big":
+        if o.get("vtoks"):
+            o["vtoks"][0][0] += 1
+            return True
+        return False
     if o.get("toks"):
         o["toks"][len(o["toks"]) // 2][1] += 1
         return True
@@ -95,6 +100,13 @@ def _corrupt_map(e):
             return True
         o["same"] = not o["same"]
         return True
+    if e["op"] == "encode_big":
+        ms = o["mappings"]
+        for i, sy in enumerate(ms):
+            if sy < 32:
+                ms[i] = (sy + 2) % 32
+                return True
+        return False
     if e["op"] == "encode":
         d = o["doc"]
         if d.get("mappings") and d["mappings"][0]:
@@ -120,6 +132,8 @@ def _corrupt_map(e):
     return False
 
 def _map_ntoks(e):
+    if e["op"] == "encode_big":
+        return len(e["args"]["vtoks"])
     p = e["args"].get("p1") or {}
     return len(p.get("toks", [])) if isinstance(p, dict) else 0
 
@@ -151,9 +165,9 @@ PROPS["C03"] = dict(
     ],
     trace="Trace_Map",
     drive=dict(quick=dict(n=500, size=4), thorough=dict(n=10000, size=10)),
-    nontrivial=lambda e: e["out"].get("k") == "ok" and (_map_ntoks(e) >= 2 or e["args"]["p1"].get("kind") == "index"),
+    nontrivial=lambda e: e["out"].get("k") == "ok" and (_map_ntoks(e) >= 2 or e["args"].get("p1", {}).get("kind") == "index"),
     corrupt=_corrupt_map,
-    rule="cases: as C01; per realised map the direct serialisation plus the serialisations of rewrite(default), adjust_mappings(self), flatten (index maps) and the to_data_url payload; distinct = distinct (how, via, map projection); non-trivial = >= 2 tokens or an index map",
+    rule="cases: as C01, plus seeded maps with FULL-RANGE 32-bit positions (columns/lines at 0, 2^31+-1, 2^32-1, deltas up to +-(2^32-1)) whose mappings text is decoded by the specification with exact bit-list arithmetic (Mappings!DecodeV); per realised map the direct serialisation plus the serialisations of rewrite(default), adjust_mappings(self), flatten (index maps) and the to_data_url payload; distinct = distinct (how, via, map projection); non-trivial = >= 2 tokens or an index map",
     assumptions=COMMON_ASSUMPTIONS,
 )
 
